@@ -22,7 +22,9 @@ UNKNOWN = ['4zz', 'h', '4c+', 'Ö4c', '4cU', '§', '4c 4zz', '%%', '4&c&&', 'u']
 WRONG_ORDER = ['c4', '#4c', 'c#4', '4#c', 'r4', '.4c', '=|1|', '=:1']
 TRUNCATED = ['4', '16.', '*cle', '*k[f#', '*M4/', '*met(c', '4%', '8q', '*clef']
 GARBAGE_APPENDED = ['4c%%', '=1x', '*clefG9', '4cc#4%', '=1||x', '2.r%', '*M4/4x', '4c 4e%', '====', '*k[f#]c']
-MALFORMED = UNKNOWN + WRONG_ORDER + TRUNCATED + GARBAGE_APPENDED
+# cells on which the recogniser reports an error AND the token builder raises (rests with note-only signifiers ...)
+BUILDER_RAISES = ['8rJ', '2r[', 'r]', '2r;]', '4r_', '4rL', 'z2r[', '4r/']
+MALFORMED = UNKNOWN + WRONG_ORDER + TRUNCATED + GARBAGE_APPENDED + BUILDER_RAISES
 
 
 def fresh_outcome(kp, s):
@@ -174,6 +176,11 @@ def run(chk):
         hists.append([rng.choice(pool) for _ in range(rng.randint(2, 12))])
     for m in MALFORMED:
         hists.append([m, '4c', m, '=1'])
+        hists.append(['4c', m, '2g', '4d'])
+    from harness import corpus
+    for _ in range(120 if full else 30):
+        junk = corpus.random_strings(rng, 4, maxlen=5)
+        hists.append([junk[0], '4c', junk[1], '=1', junk[2], '2.r', junk[3], '4c 4e'])
     ndocs = 600 if full else 80
     chk.rule = ('(a) histories over one KernSpineImporter: all orders of all subsets of {4c, 4zz, =1, c4}, every malformed '
                 'sample followed by valid cells, random histories of length 2..12 over valid + malformed cells; (b) generated '
